@@ -115,6 +115,7 @@ def pNames (ts : List String) : Option (List String) := do
 def step (b : Builder) (toks : List String) : Option Builder :=
   match toks with
   | ["case", id] => some { id := id }
+  | ["arith", a] => do let a ← a.toNat?; some { b with m := { b.m with hdr := { b.m.hdr with arith := a } } }
   | "hdr" :: ts => do let h ← parseHdr ts; some { b with m := { b.m with hdr := h } }
   | ["func", ty, na, nm] => do
     let t ← ty.toNat?; let n ← na.toInt?; let s ← parseHexStr nm
